@@ -40,7 +40,7 @@ Definition c05_cfg : config :=
   {| specs := [c05_spec true; c05_spec false; c05_spec true];
      startup_may_fire := false; shutdown_may_fire := false |}.
 Definition c05_sched : list label :=
-  [LCall 1 OpReloadAll; LRmAccept (SndCaller 1); LRet 1 OpReloadAll;
+  [LRunEnter; LRunEntered; LCall 1 OpReloadAll; LRmAccept (SndCaller 1); LRet 1 OpReloadAll;
    LReloadCall 0; LReloadRet 0; LReloadCall 2; LReloadRet 2].
 Example C05_ex_schedule :
   exists s, run (step c05_cfg) (init c05_cfg) c05_sched = Some s /\
@@ -81,9 +81,45 @@ Theorem C05_accept_one : forall c s w s',
   pending_requests s = S (pending_requests s') /\ hist s' = hist s.
 Proof. exact sup_c05_accept_one. Qed.
 
+(* ---- no request is lost (the lower bound) ---- *)
+
+(* While the supervisor's context is not cancelled (ctx_done s = false) and some runnable is Reloadable
+   (any_spec reloadable c = true), the accounting is EXACT in every reachable state: every request made so far - a
+   ReloadAll() call, a SIGHUP SendSignal call, a trigger offered on a reload-trigger channel - is either still on
+   its way (pending_requests: a caller inside ReloadAll()/SendSignal(SIGHUP), a queued SIGHUP, a `go ReloadAll()`
+   goroutine, an unreceived trigger offer, a listener about to forward) or has had a rendezvous of its own with the
+   reload manager (passes).  Nothing is dropped.  (With a cancelled context callers and listeners give up; without
+   any Reloadable a SIGHUP is ignored: the two hypotheses are exactly the two ways a request may vanish.) *)
+Theorem C05_no_request_lost : forall c s,
+  reachable_sup c s -> ctx_done s = false -> any_spec reloadable c = true ->
+  passes s + pending_requests s = requests_upper (rev (hist s)).
+Proof. exact sup_c05_no_request_lost. Qed.
+
+(* ... so at a quiescent point with the supervisor running in reap() (main s = MReap) and an idle manager nothing
+   is on its way any more except trigger offers nobody listens to (list_sum rtrig: offers on the channel of a
+   runnable without a listener): every other request made so far has had its rendezvous *)
+Theorem C05_all_served : forall c s,
+  reachable_sup c s -> quiescent c s = true -> ctx_done s = false -> any_spec reloadable c = true ->
+  rm s = RmIdle -> main s = MReap ->
+  passes s + list_sum (rtrig (aux s)) = requests_upper (rev (hist s)).
+Proof. exact sup_c05_all_served. Qed.
+
+(* ... and a pass the manager has begun completes: it is never stuck before a Reload() call (that call is the
+   manager's own, always enabled, next step; in a quiescent state the manager is never there), and inside a
+   Reload() call the only thing it waits for is that call's return (owed by the runnable).  With C05_shape and
+   C05_count: each rendezvous yields exactly one full in-order pass - also the trailing one. *)
+Theorem C05_pass_completes : forall c s j,
+  (rm s = RmNext j -> step c s (LReloadCall j) <> None) /\
+  (rm s = RmIn j -> step c s (LReloadRet j) <> None) /\
+  (quiescent c s = true -> j < nrun c -> rm s <> RmNext j).
+Proof. exact sup_c05_pass_completes. Qed.
+
 Print Assumptions C05_no_dup.
 Print Assumptions C05_count.
 Print Assumptions C05_accept_one.
+Print Assumptions C05_no_request_lost.
+Print Assumptions C05_all_served.
+Print Assumptions C05_pass_completes.
 
 (* non-vacuity: three requests from the three sources, two accepted so far; one still on its way *)
 Definition c05_cfg3 : config :=
@@ -91,7 +127,7 @@ Definition c05_cfg3 : config :=
                    stop_style := StopNonBlocking; run_exit := ExitOnSignal; held_sub := false |} ];
      startup_may_fire := false; shutdown_may_fire := false |}.
 Definition c05_sched3 : list label :=
-  [LLaunch 0; LCall 1 OpReloadAll; LCall 2 (OpSignal SigHup); LTrigR 0; LSigPut 2; LReapSig;
+  [LRunEnter; LRunEntered; LLaunch 0; LCall 1 OpReloadAll; LCall 2 (OpSignal SigHup); LTrigR 0; LSigPut 2; LReapSig;
    LRmAccept SndHup; LReloadCall 0; LReloadRet 0; LTrigRecvR 0; LRmAccept (SndListener 0)].
 Example C05_ex_count :
   exists s, run (step c05_cfg3) (init c05_cfg3) c05_sched3 = Some s /\
@@ -101,6 +137,26 @@ Proof.
   eexists. split; [vm_compute; reflexivity|]. split; [vm_compute; reflexivity|].
   split; [vm_compute; reflexivity|]. split; [vm_compute; reflexivity|]. split; vm_compute; reflexivity.
 Qed.
+(* non-vacuity of C05_no_request_lost / C05_all_served, all hypotheses at once: a burst - two SIGHUPs and a
+   ReloadAll() - while the first pass is inside Reload(); at the quiescent end all four requests have had a pass *)
+Definition c05_burst : list label :=
+  [LRunEnter; LRunEntered; LLaunch 0; LRunCall 0;
+   LCall 1 (OpSignal SigHup); LSigPut 1; LRet 1 (OpSignal SigHup); LReapSig; LRmAccept SndHup; LReloadCall 0;
+   LCall 2 (OpSignal SigHup); LSigPut 2; LRet 2 (OpSignal SigHup); LReapSig;
+   LCall 3 (OpSignal SigHup); LSigPut 3; LRet 3 (OpSignal SigHup); LReapSig; LCall 4 OpReloadAll;
+   LReloadRet 0; LRmAccept SndHup; LReloadCall 0; LReloadRet 0; LRmAccept (SndCaller 4); LRet 4 OpReloadAll;
+   LReloadCall 0; LReloadRet 0; LRmAccept SndHup; LReloadCall 0; LReloadRet 0].
+Example C05_ex_all_served :
+  exists s, run (step c05_cfg3) (init c05_cfg3) c05_burst = Some s /\ quiescent c05_cfg3 s = true /\
+            ctx_done s = false /\ any_spec reloadable c05_cfg3 = true /\ rm s = RmIdle /\ main s = MReap /\
+            passes s = 4 /\ requests_upper (rev (hist s)) = 4 /\ pending_requests s = 0 /\
+            c05_lower c05_cfg3 (obs_trace obs c05_burst ++ [EQuiet]) = true.
+Proof. eexists. split; [vm_compute; reflexivity|]. repeat split; vm_compute; reflexivity. Qed.
+(* the lower-bound monitor rejects a trace in which a SIGHUP that arrived during a pass got no pass of its own *)
+Example C05_ex_lower_rejects :
+  c05_lower c05_cfg3 [ERunEnter; ERunCall 0; ECall 1 (OpSignal SigHup); ERet 1 (OpSignal SigHup); EReloadCall 0;
+                      ECall 2 (OpSignal SigHup); ERet 2 (OpSignal SigHup); EReloadRet 0; EQuiet] = false.
+Proof. vm_compute. reflexivity. Qed.
 Example C05_ex_rejects_unrequested_pass :
   c05_no_dup c05_cfg [ECall 1 OpReloadAll; EReloadCall 0; EReloadRet 0; EReloadCall 2; EReloadRet 2; EReloadCall 0] = false.
 Proof. vm_compute. reflexivity. Qed.
